@@ -3,11 +3,13 @@
      * the parts that are true, for all inputs: the fuelled Kahn sort never runs out of fuel, is
        duplicate free and sound (and complete on acyclic maps); created tables are in FK order;
        CreateTable precedes every FK AddConstraint that references it; the CreateTable actions of a
-       whole diff are in FK order;
+       whole diff are in FK order and its DeleteTable actions in reverse FK order (when the dropped
+       tables do not reference each other cyclically); the whole property for an empty baseline
+       (C06_core_partial);
      * concrete refutations of the parts that are false (with the classifier of the known finding);
      * the full-strength statement as a plain definition, so that the target stays visible.
    Pinned statements only: each theorem is closed by [exact] of a lemma proved in Proofs/. *)
-From VV.M1 Require Import Diff Validate Oracles KahnP.
+From VV.M1 Require Import Diff Validate Oracles KahnP CreateOnlyP.
 From Coq Require Import Permutation.
 
 (* ---------- the full-strength target (a definition, NOT a claim: it is refuted below) ---------- *)
@@ -117,6 +119,93 @@ Check C06_diff_creates_in_fk_order : forall A B Bn acts,
     In (t_name t) (created_tables acts) -> In rt (created_tables acts) ->
     exists l1 l2 l3, created_tables acts = l1 ++ rt :: l2 ++ t_name t :: l3.
 
+(* ---------- dropped tables: the referencing table goes first ---------- *)
+Theorem C06_delete_deps_fuel_enough : forall acts all, kahn (delete_deps acts all) <> None.
+Proof. exact delete_deps_fuel_enough. Qed.
+Print Assumptions C06_delete_deps_fuel_enough.
+Check C06_delete_deps_fuel_enough : forall acts all, kahn (delete_deps acts all) <> None.
+
+(* delete_deps is literally the dependency map sort_delete_tables hands to kahn *)
+Theorem C06_sort_delete_tables_unfold : forall acts all,
+  sort_delete_tables acts all =
+  if Nat.leb (List.length (filter is_delete_table acts)) 1 then acts
+  else match kahn (delete_deps acts all) with
+       | None => acts
+       | Some order =>
+           put_back acts (sort_by_key (fun a =>
+             match find_index (String.eqb (delete_name a)) (rev order) with Some i => i | None => O end)
+             (filter is_delete_table acts))
+       end.
+Proof. exact sort_delete_tables_unfold. Qed.
+Print Assumptions C06_sort_delete_tables_unfold.
+Check C06_sort_delete_tables_unfold : forall acts all,
+  sort_delete_tables acts all =
+  if Nat.leb (List.length (filter is_delete_table acts)) 1 then acts
+  else match kahn (delete_deps acts all) with
+       | None => acts
+       | Some order =>
+           put_back acts (sort_by_key (fun a =>
+             match find_index (String.eqb (delete_name a)) (rev order) with Some i => i | None => O end)
+             (filter is_delete_table acts))
+       end.
+
+Theorem C06_sort_delete_tables_sound : forall acts all (rank : string -> nat),
+  (forall n td rt, In n (map delete_name (filter is_delete_table acts)) -> bt_get n all = Some td ->
+     In rt (fk_targets td) -> rt <> n -> In rt (map delete_name (filter is_delete_table acts)) ->
+     rank rt < rank n) ->
+  forall x y td, In x (map delete_name (filter is_delete_table acts)) ->
+    In y (map delete_name (filter is_delete_table acts)) ->
+    bt_get x all = Some td -> In y (fk_targets td) -> y <> x ->
+    exists l1 l2 l3,
+      map delete_name (filter is_delete_table (sort_delete_tables acts all)) = l1 ++ x :: l2 ++ y :: l3.
+Proof. exact sort_delete_tables_sound. Qed.
+Print Assumptions C06_sort_delete_tables_sound.
+Check C06_sort_delete_tables_sound : forall acts all (rank : string -> nat),
+  (forall n td rt, In n (map delete_name (filter is_delete_table acts)) -> bt_get n all = Some td ->
+     In rt (fk_targets td) -> rt <> n -> In rt (map delete_name (filter is_delete_table acts)) ->
+     rank rt < rank n) ->
+  forall x y td, In x (map delete_name (filter is_delete_table acts)) ->
+    In y (map delete_name (filter is_delete_table acts)) ->
+    bt_get x all = Some td -> In y (fk_targets td) -> y <> x ->
+    exists l1 l2 l3,
+      map delete_name (filter is_delete_table (sort_delete_tables acts all)) = l1 ++ x :: l2 ++ y :: l3.
+
+Theorem C06_diff_deletes_in_fk_order : forall A B An acts (rank : string -> nat),
+  NoDup (map t_name A) -> normalize_all A = Ok An -> diff_actions A B = Ok acts ->
+  (forall t rt, In t An -> In (t_name t) (map delete_name (filter is_delete_table acts)) ->
+     In rt (fk_targets t) -> rt <> t_name t -> In rt (map delete_name (filter is_delete_table acts)) ->
+     rank rt < rank (t_name t)) ->
+  forall t rt, In t An -> In (t_name t) (map delete_name (filter is_delete_table acts)) ->
+    In rt (fk_targets t) -> rt <> t_name t -> In rt (map delete_name (filter is_delete_table acts)) ->
+    exists l1 l2 l3, map delete_name (filter is_delete_table acts) = l1 ++ t_name t :: l2 ++ rt :: l3.
+Proof. exact diff_deletes_in_fk_order. Qed.
+Print Assumptions C06_diff_deletes_in_fk_order.
+Check C06_diff_deletes_in_fk_order : forall A B An acts (rank : string -> nat),
+  NoDup (map t_name A) -> normalize_all A = Ok An -> diff_actions A B = Ok acts ->
+  (forall t rt, In t An -> In (t_name t) (map delete_name (filter is_delete_table acts)) ->
+     In rt (fk_targets t) -> rt <> t_name t -> In rt (map delete_name (filter is_delete_table acts)) ->
+     rank rt < rank (t_name t)) ->
+  forall t rt, In t An -> In (t_name t) (map delete_name (filter is_delete_table acts)) ->
+    In rt (fk_targets t) -> rt <> t_name t -> In rt (map delete_name (filter is_delete_table acts)) ->
+    exists l1 l2 l3, map delete_name (filter is_delete_table acts) = l1 ++ t_name t :: l2 ++ rt :: l3.
+
+(* ---------- the whole property on the sub-class "empty baseline" ---------- *)
+(* PARTIAL: every non-empty baseline is missing (plans that drop, alter or extend existing tables); the
+   hypothesis that the planner returns a plan excludes FK cycles among the new tables (C06_fk_cycle_refuted);
+   the two classifier hypotheses hold trivially for an empty baseline and are kept for uniformity. *)
+Theorem C06_core_partial : forall T,
+  loader_accepts T = true ->
+  known_drop_before_unreference [] T = false -> known_shrunk_constraint [] T = false ->
+  (exists acts, diff_actions [] T = Ok acts) ->
+  plan_stepwise_ok [] T = true.
+Proof. exact CreateOnlyP.C06_core_partial. Qed.
+Print Assumptions C06_core_partial.
+Check C06_core_partial : forall T,
+  loader_accepts T = true ->
+  known_drop_before_unreference [] T = false -> known_shrunk_constraint [] T = false ->
+  (exists acts, diff_actions [] T = Ok acts) ->
+  plan_stepwise_ok [] T = true.
+
 (* ---------- refutations (R): the planner really emits these plans ---------- *)
 (* D2: DeleteTable is emitted before the RemoveConstraint of a surviving table's FK to it *)
 Theorem C06_delete_before_remove_fk_refuted :
@@ -150,6 +239,45 @@ Check C06_fk_cycle_refuted :
               diff_actions B T = Err DiffCycle /\ plan_stepwise_ok B T = false /\
               known_drop_before_unreference B T = false /\ known_shrunk_constraint B T = false.
 
+(* dropping two tables that reference each other: neither order is consistent; outside both classifiers *)
+Theorem C06_drop_fk_cycle_refuted :
+  exists B T, loader_accepts B = true /\ loader_accepts T = true /\ consistent B = true /\
+              diff_actions B T = Ok [DeleteTable "a"; DeleteTable "b"] /\ plan_stepwise_ok B T = false /\
+              known_drop_before_unreference B T = false /\ known_shrunk_constraint B T = false.
+Proof. exact KahnP.C06_drop_fk_cycle_refuted. Qed.
+Print Assumptions C06_drop_fk_cycle_refuted.
+Check C06_drop_fk_cycle_refuted :
+  exists B T, loader_accepts B = true /\ loader_accepts T = true /\ consistent B = true /\
+              diff_actions B T = Ok [DeleteTable "a"; DeleteTable "b"] /\ plan_stepwise_ok B T = false /\
+              known_drop_before_unreference B T = false /\ known_shrunk_constraint B T = false.
+
+(* the exact plans of the two known findings and the step at which each breaks *)
+Theorem C06_delete_before_remove_fk_plan :
+  consistent w_drop_B = true /\
+  diff_actions w_drop_B w_drop_T = Ok [DeleteTable "user"; RemoveConstraint "post" w_fk] /\
+  exists s1, apply_action w_drop_B (DeleteTable "user") = Ok s1 /\ consistent s1 = false.
+Proof. exact KahnP.C06_delete_before_remove_fk_plan. Qed.
+Print Assumptions C06_delete_before_remove_fk_plan.
+Check C06_delete_before_remove_fk_plan :
+  consistent w_drop_B = true /\
+  diff_actions w_drop_B w_drop_T = Ok [DeleteTable "user"; RemoveConstraint "post" w_fk] /\
+  exists s1, apply_action w_drop_B (DeleteTable "user") = Ok s1 /\ consistent s1 = false.
+
+Theorem C06_shrunk_constraint_plan :
+  consistent w_shrunk_B = true /\
+  diff_actions w_shrunk_B w_shrunk_T =
+    Ok [DeleteColumn "t" "b"; RemoveConstraint "t" (CIndex None ["a"; "b"]); AddConstraint "t" (CIndex None ["a"])] /\
+  exists s1, apply_action w_shrunk_B (DeleteColumn "t" "b") = Ok s1 /\
+             target_present s1 (RemoveConstraint "t" (CIndex None ["a"; "b"])) = false.
+Proof. exact KahnP.C06_shrunk_constraint_plan. Qed.
+Print Assumptions C06_shrunk_constraint_plan.
+Check C06_shrunk_constraint_plan :
+  consistent w_shrunk_B = true /\
+  diff_actions w_shrunk_B w_shrunk_T =
+    Ok [DeleteColumn "t" "b"; RemoveConstraint "t" (CIndex None ["a"; "b"]); AddConstraint "t" (CIndex None ["a"])] /\
+  exists s1, apply_action w_shrunk_B (DeleteColumn "t" "b") = Ok s1 /\
+             target_present s1 (RemoveConstraint "t" (CIndex None ["a"; "b"])) = false.
+
 Theorem C06_full_statement_refuted : ~ C06_full_statement.
 Proof. exact KahnP.C06_full_statement_refuted. Qed.
 Print Assumptions C06_full_statement_refuted.
@@ -170,4 +298,19 @@ Example C06_diff_creates_nonvacuous :
   exists acts, diff_actions [] [mkTable "post" None [w_pkcol "id"; w_fkcol "user_id" "user.id"] [];
                                 mkTable "user" None [w_pkcol "id"] []] = Ok acts /\
                created_tables acts = ["user"; "post"].
+Proof. eexists. split; vm_compute; reflexivity. Qed.
+
+Example C06_core_partial_nonvacuous :
+  let T := [mkTable "post" None [w_pkcol "id"; w_fkcol "user_id" "user.id"] [];
+            mkTable "user" None [w_pkcol "id"] []] in
+  loader_accepts T = true /\ (exists acts, diff_actions [] T = Ok acts) /\ plan_stepwise_ok [] T = true.
+Proof. exact CreateOnlyP.C06_core_partial_nonvacuous. Qed.
+
+(* three dropped tables c -> b -> a: the plan drops c, b, a *)
+Example C06_diff_deletes_nonvacuous :
+  exists acts,
+    diff_actions [mkTable "a" None [w_pkcol "id"] [];
+                  mkTable "b" None [w_pkcol "id"; w_fkcol "a_id" "a.id"] [];
+                  mkTable "c" None [w_pkcol "id"; w_fkcol "b_id" "b.id"] []] [] = Ok acts /\
+    map delete_name (filter is_delete_table acts) = ["c"; "b"; "a"].
 Proof. eexists. split; vm_compute; reflexivity. Qed.
